@@ -74,6 +74,7 @@ def _ops():
         ops.append(("pop_default", k))
         for v in OVALS:
             ops.append(("setitem", k, v))
+        ops.append(("setitem_current", k))  # h[k] = h[k]: assign the value the collection itself reports
         for vs in ([], [OVALS[0]], [OVALS[1]], [OVALS[0], OVALS[1]], [OVALS[1], OVALS[1]], [OVALS[1], OVALS[0], OVALS[0]]):
             ops.append(("set_all", k, tuple(vs)))
     for k in (b"A", b"ab"):  # bytes keys are accepted as well
@@ -158,6 +159,20 @@ def run_op(X, h, r, op, where="op"):
         got = h.pop(kb.decode(), sentinel)
         exp = outcome(lambda: r.pop(kb), Missing)
         X.check((got is sentinel and exp == ("missing",)) or exp == ("ok", got), key, f"pop({kb!r}, default) on {before}: {got!r} vs reference {exp}")
+    elif kind == "setitem_current":
+        _, kb = op
+        cur = h.get(kb.decode())
+        if cur is None:
+            X.reach("setitem-current-absent")
+        else:
+            # assigning the (folded) value the collection reports must still leave exactly ONE field of that name
+            h[kb.decode()] = cur
+            values = [cur.encode("utf-8", "surrogateescape")]
+            problems = r.check_replace(kb, values, h.fields)
+            X.check(not problems, key, f"h[{kb!r}] = h[{kb!r}] ({cur!r}) on {before} -> {list(h.fields)}: {problems}")
+            if sum(1 for n, _ in before if fold(n) == fold(kb)) > 1:
+                X.reach("reassigned-folded-duplicates")
+            r.adopt(h.fields)
     elif kind in ("setitem", "set_all"):
         _, kb, v = op
         if kind == "setitem":
@@ -363,7 +378,7 @@ def obligations(tier):
     return [
         Symx("inductive-step", lambda X: h_step(X, n), bounds=f"all {nstates} field tuples of <= {n} entries (names {{a,A,b,B,ab}} x values {{1,2}}) x {len(_OPS)} operation instances "
              "(getitem/get_all/contains/delitem/pop x 5 names (+bytes keys), setitem x 2 values, set_all x 6 value lists, add, insert at 0,1,2,-1,7,-7, iter, len, copy, "
-             "eq x 6 variants, keys/values/items x multi)", encoded=ENCODED[:-1], must_reach=["done", "full-size-state", "removed", "replaced-existing", "inserted", "eq-decided"],
+             "eq x 6 variants, keys/values/items x multi)", encoded=ENCODED[:-1], must_reach=["done", "full-size-state", "removed", "replaced-existing", "inserted", "eq-decided", "reassigned-folded-duplicates"],
              parallel_depth=3),
         Symx("histories", lambda X: h_history(X, 3, hist_ops), bounds=f"{len(H_START)} start states x every sequence of 3 operations from a {len(hist_ops)}-entry mutator menu, full observer sweep after each",
              encoded=ENCODED[:-1], must_reach=["end", "removed", "replaced-existing", "inserted"], parallel_depth=2),
